@@ -167,6 +167,19 @@ fn main() {
             let samples: Vec<&Value> = cases.iter().step_by((cases.len() / 3).max(1)).take(3).collect();
             println!("{}", json!({"cases": cases.len(), "prop_mismatch": nprop, "model_drift": 0, "prop": prop, "model": [], "samples": samples}));
         }
+        ("replay", "wrappers") => {
+            let cases = load_cases(&args[3]);
+            let mut prop: Vec<Value> = vec![];
+            let mut nprop = 0usize;
+            let mut runs = 0u64;
+            for c in &cases {
+                let (o, r) = vh::wrappers::replay_one(c);
+                runs += r;
+                if !o.prop.is_empty() { nprop += 1; if prop.len() < 40 { let mut w = o.prop; w.truncate(5); prop.push(json!({"case": c, "why": w, "key": format!("wrappers:{}:{}", c["chain"], c["form"])})); } }
+            }
+            let samples: Vec<&Value> = cases.iter().step_by((cases.len() / 3).max(1)).take(3).collect();
+            println!("{}", json!({"cases": cases.len(), "prop_mismatch": nprop, "model_drift": 0, "prop": prop, "model": [], "samples": samples, "counts": {"conversions_compared": runs}}));
+        }
         ("record", "accum") => {
             let seed: u64 = args[3].parse().unwrap();
             let runs: usize = args[4].parse().unwrap();
